@@ -3,7 +3,7 @@ from ..lockprops import VERSIONS, make_jobs, replay_lock, run_lock_job
 
 ID = "C10"
 LEVEL = "exploration"
-PROFILE = {"garbage": 0.05, "ctl": 0.2, "semicolon": False, "sleep": False, "ota": True, "unicode": 0.05}
+PROFILE = {"cbfw": True, "garbage": 0.05, "ctl": 0.2, "semicolon": False, "sleep": False, "ota": True, "unicode": 0.05}
 
 
 def jobs(tier, seed):
